@@ -15,7 +15,7 @@ import (
 type c09path struct {
 	fns      map[*ssa.Function]bool
 	canvas   map[*ssa.Function]bool // reached from MarchingCanvas.AddField / March / MarchOnAttribute only
-	order    []*ssa.Function // deterministic
+	order    []*ssa.Function        // deterministic
 	addField *ssa.Function
 	march    *ssa.Function
 	index    *ssa.Function
